@@ -198,7 +198,7 @@ class Primitive(Trimesh):
         # copy the current transform
         current = prim.transform.copy()
         # see if matrix has scaling from the matrix
-        scale = np.linalg.det(matrix[:3, :3]) ** (1.0 / 3.0)
+        scale = np.abs(np.linalg.det(matrix[:3, :3])) ** (1.0 / 3.0)
 
         # the objects we handle re-scaling for
         # note that `Extrusion` is NOT supported
